@@ -352,12 +352,17 @@ def evaluate_pipeline(case, d):
 
     # strip shapes built by the generator: what the library decodes from the strips must be the triangles that were
     # encoded (same corners, same winding), before any conversion - the generator's list is the ground truth
-    for nm, flat in (st["orig"].get("gen_tris") or {}).items():
-        want_t = tri_set(flat)
-        for s in orig["shapes"]:
-            if s["name"] == nm and s.get("type") == "NiTriStrips" and tri_set(s["tris"]) != want_t:
-                fails.append(("strip shape: the decoded triangles are not the encoded ones (corners or winding)",
-                              {"shape": nm, "decoded": tri_set(s["tris"])[:6], "encoded": want_t[:6]}))
+    gen = st["orig"].get("gen_tris") or {}
+    seen_names = {}
+    for s in orig["shapes"]:
+        if s.get("type") != "NiTriStrips":
+            continue
+        k = seen_names.get(s["name"], 0)
+        seen_names[s["name"]] = k + 1
+        flat = gen.get("%s#%d" % (s["name"], k))
+        if flat is not None and tri_set(s["tris"]) != tri_set(flat):
+            fails.append(("strip shape: the decoded triangles are not the encoded ones (corners or winding)",
+                          {"shape": s["name"], "decoded": tri_set(s["tris"])[:6], "encoded": tri_set(flat)[:6]}))
     check_pair("orig", "conv0", "conversion", False)
     dup = sibling_dupes(st["conv0"]["d"])
     if dup:
